@@ -1691,3 +1691,65 @@ pub fn f_ws_files() -> Vec<Case> {
         .map(|s| case("F-WS", Dial::Core, *s))
         .collect()
 }
+
+// ------------------------------------------------------------------------------------------------------------
+// F-CALL: call-shaped and function-shaped programs for the option rules (C11)
+// ------------------------------------------------------------------------------------------------------------
+pub fn f_call(thorough: bool) -> Vec<Case> {
+    let mut v = Vec::new();
+    let callees = ["f", "o:m", "g()", "t.k", "ffffffffffffffffffff"];
+    let args: &[&str] = &[
+        "\"s\"", "'s'", "[[s]]", "{}", "{ 1 }", "{ a = 1 }", "(\"s\")", "({})", "((\"s\"))", "a", "", "\"s\", a", "{}, {}", "'it\\'s'", "\"say \\\"hi\\\"\"",
+        "function() end", "...", "\"ssssssssssssssssssssssssssssssssssssssss\"",
+    ];
+    let nexts = ["", ".k", "[k]", ":m()", "()", ".k.j", ":m\"s\"", "\"t\"", "{}"];
+    for c in callees {
+        for a in args {
+            for n in nexts {
+                // written with parentheses, and (for single string / table arguments) in sugar form too
+                let mut forms = vec![format!("{}({}){}", c, a, n)];
+                if matches!(*a, "\"s\"" | "'s'" | "[[s]]" | "{}" | "{ 1 }" | "{ a = 1 }" | "'it\\'s'") {
+                    forms.push(format!("{} {}{}", c, a, n));
+                    forms.push(format!("{}{}{}", c, a, n));
+                }
+                for f in forms {
+                    v.push(case("F-CALL", Dial::Core, format!("{}\n", f)));
+                    if n != "\"t\"" && n != "{}" {
+                        v.push(case("F-CALL", Dial::Core, format!("local x = {}\n", f)));
+                    }
+                    if thorough {
+                        v.push(case("F-CALL", Dial::Core, format!("return {}\n", f)));
+                        v.push(case("F-CALL", Dial::Core, format!("h({}, 1)\n", f)));
+                        v.push(case("F-CALL", Dial::Core, format!("x = {{ {} }}\n", f)));
+                    }
+                }
+            }
+        }
+    }
+    for s in [
+        "function f() end",
+        "function f(a, b) return a end",
+        "function o.f() end",
+        "function o:m(a) end",
+        "local function f() end",
+        "local f = function() end",
+        "local f = function(a) return a end",
+        "f(function() end)",
+        "function f (a) end",
+        "local function f  () end",
+        "f (a)",
+        "o:m (a)",
+        "f  \"s\"",
+        "x = f (a) (b)",
+        "x = (f) (a)",
+        "x = t[1] (a)",
+        "x = \"s\" .. 's' .. [[s]]",
+        "x = { \"a\", 'b', [\"c\"] = 'd' }",
+    ] {
+        v.push(case("F-CALL", Dial::Core, format!("{}\n", s)));
+    }
+    for s in ["function f<T>(a: T) end", "local function f<T>(): T end", "type function f() end", "x = f(`s`)", "x = f`s`"] {
+        v.push(case("F-CALL", Dial::Luau, format!("{}\n", s)));
+    }
+    v
+}
